@@ -42,6 +42,7 @@ def faults():
     for where in ('surface', 'trcl', 'fill', 'unused'):
         for mval in ('sym', -1):
             out.append(('m', where, mval))
+        out.append(('m', where, -1, 'star'))      # *TR card: angles in degrees, then m
     # 3. surface / macrobody parameter counts
     for mn, counts in VALID_COUNTS.items():
         if mn == 'ARB':
@@ -66,7 +67,7 @@ def faults():
     for kind in ('no-option', 'option-dims', 'array-short', 'array-long', 'ranges-dims', 'ranges-dims-trivial-middle', 'option-dims-trivial-first'):
         out.append(('lattice', kind))
     # 7. importance cards
-    for kind in ('short', 'long-mismatch', 'two-cards'):
+    for kind in ('short', 'long-mismatch', 'two-cards', 'same-tokens', 'same-tokens-2'):
         out.append(('imp', kind))
     # 8. mixed signs
     for order in ('pos-neg', 'neg-pos', 'neg-neg-pos', 'pos-pos-neg'):
@@ -88,7 +89,8 @@ def inject(f):
     pre = []
     kind = f[0]
     if kind == 'm':
-        _, where, mval = f
+        _, where, mval = f[:3]
+        star = len(f) > 3
         if mval == 'sym':
             m = RatFn.var('m')
             pre.append(m.z3_cmp('!='))          # placeholder: replaced below
@@ -98,7 +100,10 @@ def inject(f):
             pre.append((m + RatFn.const(40)).z3_cmp('>='))
         else:
             m = Fr(mval)
-        d.trs[5] = (IDENT12[:3] + IDENT12[3:] + [m], False)
+        if star:
+            d.trs[5] = (IDENT12[:3] + [Fr(a) for a in (0, 90, 90, 90, 0, 90, 90, 90, 0)] + [m], True)
+        else:
+            d.trs[5] = (IDENT12[:3] + IDENT12[3:] + [m], False)
         if where == 'surface':
             d.surfs[0].tr = 5
         elif where == 'trcl':
@@ -156,6 +161,13 @@ def inject(f):
         elif f[1] == 'long-mismatch':
             d.imp_cards['n'] = [Fr(1), Fr(1), Fr(0)]
             d.imp_cards['p'] = [Fr(1), Fr(1), Fr(0), Fr(0)]
+        elif f[1] == 'same-tokens':
+            # as many entries on both cards as written, not after the shorthand is expanded (3 and 4)
+            d.imp_cards['n'] = [Fr(1), Fr(1), Fr(0)]
+            d.imp_cards['p'] = [Fr(1), '2r', Fr(0)]
+        elif f[1] == 'same-tokens-2':
+            d.imp_cards['n'] = [Fr(1), '1i', Fr(3), Fr(0)]      # 4 entries after expansion
+            d.imp_cards['p'] = [Fr(1), '2r', Fr(0), Fr(0)]      # 5 entries after expansion
         else:
             d.imp_cards['n'] = [Fr(1), '1r', Fr(0)]
             d.imp_cards['p'] = [Fr(1), Fr(0)]
